@@ -16,8 +16,7 @@ impl Utc {
     fn now() -> DateTime<Utc> { unimplemented!() }
 }
 
-#[verifier::external_body]
-pub struct RunningTaskContext {}
+//@ extract struct RunningTaskContext file=crates/hyperqueue/src/worker/start/mod.rs
 #[verifier::external_body]
 pub struct SerializedTaskContext {}
 //@ extract struct JobDescription file=crates/hyperqueue/src/transfer/messages.rs
